@@ -373,6 +373,7 @@ def run_cases(ck, subcmd, cases, nproc=8, race=False, timeout=900, env=None, arg
             except subprocess.TimeoutExpired:
                 raise Infra("driver %s timed out after %ds" % (subcmd, timeout))
             started = None
+            notes = {}
             done_ids = set()
             for line in p.stdout.splitlines():
                 if not line.strip():
@@ -385,8 +386,15 @@ def run_cases(ck, subcmd, cases, nproc=8, race=False, timeout=900, env=None, arg
                     continue
                 if "start" in o and len(o) == 1:
                     started = o["start"]
+                    notes = {}
+                    continue
+                if "note" in o:
+                    # something the driver found out about the case in progress, in case it does not live to report a result
+                    notes = dict(o)
                     continue
                 if "id" in o:
+                    if o.get("hang") and notes.get("note") == o["id"]:
+                        o["note"] = notes
                     local[o["id"]] = o
                     done_ids.add(o["id"])
             if p.returncode == 0:
@@ -401,6 +409,8 @@ def run_cases(ck, subcmd, cases, nproc=8, race=False, timeout=900, env=None, arg
                 if started is not None and started not in done_ids:
                     local[started] = {"id": started, "died": True, "rc": p.returncode,
                                       "stderr": p.stderr[-3000:]}
+                    if notes.get("note") == started:
+                        local[started]["note"] = notes
                     done_ids.add(started)
                 pending = [c for c in pending if c["id"] not in done_ids]
         return local
